@@ -322,6 +322,24 @@ def replay_open(f):
 # ------------------------------------------------------------------------------------------------
 # correspondence + property on each case
 
+def show(enc):
+    """readable form of an encoded outcome (for replay files)"""
+    try:
+        if enc[0] == 1:
+            n = enc[3]
+            msg = "".join(chr(c) for c in enc[4:4 + n])
+            rest = enc[4 + n:]
+            text = "".join(chr(c) for c in rest[1:1 + rest[0]]) if rest else None
+            return {"XPathParsingError": {"position": enc[1], "unsupported": bool(enc[2]), "message": msg, "str": text}}
+        if enc[0] == 2:
+            return {"crash": XCLASS[enc[-1]] if enc[-1] < len(XCLASS) else enc[-1], "site": enc[1] if len(enc) > 2 else None}
+        if enc[0] == 0:
+            return {"ok_ast_encoding": enc[1:80]}
+    except Exception:  # noqa: BLE001
+        pass
+    return enc[:80]
+
+
 def split_case(vals):
     n = vals[0]
     return vals[1:1 + n], vals[1 + n:]
@@ -334,6 +352,13 @@ def check_cases(ctx, cases):
         reals.append(real_outcome(s))
     terms = ["parse_case %s" % cstr(s) for _, s in cases]
     vals = ctx.coq_eval("c16", REQ, terms, chunk=250)
+    if any(v is None for v in vals):
+        # a concurrent rebuild of a shared library makes coqc refuse stale .vo files: rebuild once and retry
+        ctx.build("Props/C16.vo")
+        retry = [i for i, v in enumerate(vals) if v is None]
+        again = ctx.coq_eval("c16r", REQ, [terms[i] for i in retry], chunk=250)
+        for i, v in zip(retry, again):
+            vals[i] = v
     for (fam, s), r, v in zip(cases, reals, vals):
         ctx.count(1, fam + "/" + (r[0] if r[0] != "crash" else "crash:" + r[1]))
         case = {"expression": s, "family": fam}
@@ -348,12 +373,12 @@ def check_cases(ctx, cases):
             elif model[0] == 2:
                 site, xc = model[1], model[2]
                 if r[0] != "crash" or r[1] != XCLASS[xc]:
-                    ctx.mismatch("parse model vs _delb.xpath.parse", {"case": case, "impl": r[:5], "model": model[:40]})
+                    ctx.mismatch("parse model vs _delb.xpath.parse", {"case": case, "impl": [str(x)[:200] for x in r[:5]],
+                                                                      "model": show(model)})
                 if SITE_CLS.get(site) not in classes:
                     ctx.mismatch("crash site outside its class (Classify.v)", {"case": case, "site": site, "classes": classes})
             elif model != enc_real(r):
-                ctx.mismatch("parse model vs _delb.xpath.parse", {"case": case, "impl": enc_real(r)[:60], "model": model[:60],
-                                                                  "impl_outcome": [str(x)[:200] for x in r[:5]]})
+                ctx.mismatch("parse model vs _delb.xpath.parse", {"case": case, "impl": show(enc_real(r)), "model": show(model)})
             if sorted(classes) != sorted(py_classes(s)):
                 ctx.mismatch("Classify.classes_of vs harness py_classes", {"case": case, "coq": classes, "py": py_classes(s)})
         judge(ctx, case, r)
